@@ -3,7 +3,8 @@
 Generated: well-scaled smooth problems (|coefficients| <= 2, |x0| <= 2, so the forward-difference
 error bound computed from the data is << deriv_tol), with equality and inequality rows (slack
 columns present), any sparse format; a corruption target (gradient / Jacobian / Hessian), a
-position (row, column) and a magnitude |delta| in [2.5e-4 + 2e-5 |entry|, 10] with either sign.
+position (row, column) and a magnitude |delta| in [2.5e-4 + 2e-5 |entry|, 10] with either sign, or the entry is
+omitted from the sparse matrix altogether (error -entry, when that is in the same range).
 
 Three runs per case (iteration_limit 5): derivative check off; CheckAll on the correct problem;
 CheckAll on the problem with the single entry corrupted.  Oracle: the correct problem raises no
@@ -73,12 +74,14 @@ def strategy(tier):
             r, c = draw(st.integers(0, n - 1)), draw(st.integers(0, n - 1))
         mag = draw(st.sampled_from([0.0, 1e-4, 1e-3, 0.05, 1.0, 9.0]))
         sign = draw(st.sampled_from([-1.0, 1.0]))
-        return {"spec": spec, "start": {"x0": x0, "y0": y0}, "target": target, "r": r, "c": c, "mag": mag, "sign": sign}
+        # "omit": the entry is left out of the sparse matrix altogether (a forgotten entry of the sparsity pattern)
+        mode = draw(st.sampled_from(["add", "add", "omit"]))
+        return {"spec": spec, "start": {"x0": x0, "y0": y0}, "target": target, "r": r, "c": c, "mag": mag, "sign": sign, "mode": mode}
 
     return _s()
 
 
-def corrupt(inner, target, r, c, delta):
+def corrupt(inner, target, r, c, delta, omit=False):
     import scipy.sparse as sps
 
     from pygradflow.problem import Problem
@@ -105,7 +108,7 @@ def corrupt(inner, target, r, c, delta):
             if target == "jac":
                 fmt = J.format
                 D = J.toarray().astype(float)  # (callbacks may return integer-typed matrices)
-                D[r, c] += delta
+                D[r, c] = 0.0 if omit else D[r, c] + delta
                 J = sps.coo_matrix(D).asformat(fmt)
             return J
 
@@ -114,7 +117,7 @@ def corrupt(inner, target, r, c, delta):
             if target == "hess":
                 fmt = H.format
                 D = H.toarray().astype(float)
-                D[r, c] += delta
+                D[r, c] = 0.0 if omit else D[r, c] + delta
                 H = sps.coo_matrix(D).asformat(fmt)
             return H
 
@@ -144,6 +147,14 @@ def check(case):
     delta = case["sign"] * (2.5e-4 + 2e-5 * abs(entry) + case["mag"])
     if abs(delta) > 10.0:
         delta = np.sign(delta) * 10.0
+    omit = False
+    if case.get("mode") == "omit" and target != "grad":
+        # the entry is dropped from the matrix: an error of -entry, in the statement's domain when it is large enough
+        if abs(entry) >= 1.01 * (2.5e-4 + 2e-5 * abs(entry)) and abs(entry) <= 10.0:
+            omit, delta = True, -float(entry)
+            labels.append("mode:omit")
+        else:
+            labels.append("mode:omit_fallback_add")
     labels.append(f"mag:{case['mag']:g}")
 
     def run(problem, dc):
@@ -158,7 +169,7 @@ def check(case):
         return violation(f"correct-derivatives-rejected|{target}", f"CheckAll rejects a correct problem: col {e.col_index}, rows {e.invalid_indices.tolist()}, max diff {e.max_deriv_diff:.3e}", labels, sub=3)
     if good.digest != base.digest:
         return violation("check-alters-solve", f"digest with CheckAll differs from NoCheck ({good.result.status.name if good.result else good.exc!r} vs {base.result.status.name if base.result else base.exc!r})", labels, sub=3)
-    bad = run(corrupt(make_user_problem(spec), target, r, c, delta), DerivCheck.CheckAll)
+    bad = run(corrupt(make_user_problem(spec), target, r, c, delta, omit=omit), DerivCheck.CheckAll)
     if not isinstance(bad.exc, DerivError):
         return violation(f"wrong-entry-accepted|{target}", f"{target} entry ({r},{c}) wrong by {delta:.3e} (true {entry:.3e}) but CheckAll raised {bad.exc!r} / returned {bad.result.status.name if bad.result else None}", labels, sub=3)
     e = bad.exc
